@@ -31,6 +31,21 @@ impl Q {
             Q::Boxed(q) => q.append(TaggedEntry(t)),
         }
     }
+    /// `append_on_drop` guard on this handle, then consumed as `how` says
+    pub fn guard_then(&self, t: Tag, how: &str) {
+        fn consume<Q2: EntrySink<TaggedEntry>>(g: metrique_writer_core::sink::AppendOnDrop<TaggedEntry, Q2>, how: &str) {
+            match how {
+                "drop" => drop(g),
+                "into_entry" => drop(g.into_entry()),
+                "forget" => g.forget(),
+                other => panic!("HARNESS: unknown guard end {other}"),
+            }
+        }
+        match self {
+            Q::Typed(q) => consume(q.append_on_drop(TaggedEntry(t)), how),
+            Q::Boxed(q) => consume(q.append_on_drop(TaggedEntry(t)), how),
+        }
+    }
     pub fn flush_async(&self) -> metrique_writer_core::sink::FlushWait {
         match self {
             Q::Typed(q) => q.flush_async(),
@@ -289,6 +304,23 @@ pub fn c04(cfg: &Value) {
             for t in threads {
                 t.join().unwrap();
             }
+            return;
+        }
+        "last-handle-dropped" => {
+            // the requester owns the only queue handle and drops it right after the request:
+            // append(s); flush_async(); drop(queue). The request was made on a live queue.
+            for si in 0..n {
+                let t = Tag { p: 0, seq: si as u8 };
+                q.append(t);
+                returned.push(t);
+            }
+            let before = returned.get();
+            let fut = q.flush_async();
+            drop(q);
+            let ((), snap) = wait_with_snapshot(fut, &log);
+            mc::outcome(format!("last-handle-dropped snap={}", log_string(&snap)));
+            check_flush_snapshot("last-handle-dropped", &before, &snap, displaced_ok);
+            drop(handle);
             return;
         }
         other => panic!("HARNESS: unknown mode {other}"),
@@ -600,6 +632,15 @@ pub fn c05_forget(cfg: &Value) {
         let t = Tag { p: 0, seq: si as u8 };
         q.append(t);
         returned.push(t);
+    }
+    if let Some(how) = cfg["guard"].as_str() {
+        // an `append_on_drop` guard on this handle: dropped (appends) or consumed without
+        // appending; either way it must not keep the queue alive afterwards
+        let t = Tag { p: 0, seq: 60 };
+        q.guard_then(t, how);
+        if how == "drop" {
+            returned.push(t);
+        }
     }
     if cfg["concurrent_drop"].as_bool().unwrap_or(false) {
         // the producer's clone and main's handle go away concurrently: whichever drop is last,
